@@ -368,3 +368,80 @@ Proof.
   rewrite E. lra.
 Qed.
 End SvtFirm.
+
+(* ---------- the nuclear norm by duality, and singular value thresholding against EVERY competitor (no decomposition of the competitor).
+   spec_le c W : the spectral norm of W is at most c (bound on the bilinear form over unit vectors);
+   nuc_le Z nu : nu is an upper bound of <W, Z> over the spectral unit ball, i.e. |Z|_* <= nu (the nuclear norm is the dual of the
+   spectral norm); is_nuc Z nu : the bound is attained, nu = |Z|_*. *)
+Definition spec_le (m n : nat) (c : R) (W : nat -> nat -> R) : Prop :=
+  forall u v, unit_vec m u -> unit_vec n v -> bil m n u W v <= c.
+Definition nuc_le (m n : nat) (Z : nat -> nat -> R) (nu : R) : Prop := forall W, spec_le m n 1 W -> frob m n W Z <= nu.
+Definition is_nuc (m n : nat) (Z : nat -> nat -> R) (nu : R) : Prop := nuc_le m n Z nu /\ exists W, spec_le m n 1 W /\ frob m n W Z = nu.
+
+Lemma bil_scale m n c u G v : bil m n u (fun i j => c * G i j) v = c * bil m n u G v.
+Proof. unfold bil. rewrite <- rsum_scale. apply rsum_ext; intros i _. rewrite <- rsum_scale. apply rsum_ext; intros; ring. Qed.
+Lemma frob_scale_l m n c A B : frob m n (fun i j => c * A i j) B = c * frob m n A B.
+Proof. unfold frob. rewrite <- rsum_scale. apply rsum_ext; intros i _. rewrite <- rsum_scale. apply rsum_ext; intros; ring. Qed.
+(* <Z, G> <= c * |Z|_* when the spectral norm of G is at most c *)
+Lemma nuc_dual_bound m n Z nu G c : 0 <= c -> nuc_le m n Z nu -> spec_le m n c G -> (c = 0 -> forall i j, G i j = 0) -> frob m n Z G <= c * nu.
+Proof.
+  intros Hc HZ HG H0. destruct (Req_dec c 0) as [E|E].
+  - rewrite (frob_comm m n Z G). unfold frob. rewrite rsum_zero; [subst; lra|]. intros i _. apply rsum_zero. intros j _. rewrite (H0 E i j). ring.
+  - assert (Hpos : 0 < c) by lra.
+    assert (HW : spec_le m n 1 (fun i j => / c * G i j)).
+    { intros u v Hu Hv. rewrite bil_scale. pose proof (HG u v Hu Hv) as B. apply Rmult_le_reg_l with c; [exact Hpos|].
+      rewrite <- Rmult_assoc, Rinv_r by exact E. lra. }
+    pose proof (HZ _ HW) as B. rewrite frob_scale_l in B. rewrite (frob_comm m n Z G).
+    apply Rmult_le_reg_l with (/ c); [apply Rinv_0_lt_compat, Hpos|]. rewrite <- Rmult_assoc, Rinv_l by exact E. lra.
+Qed.
+
+Section SvtDual.
+Variables (m n k : nat) (U : nat -> nat -> R) (s : nat -> R) (V : nat -> nat -> R) (t : R).
+Hypothesis HU : ocols m k U.
+Hypothesis HV : ocols n k (fun j l => V l j).
+Hypothesis Ht : 0 <= t.
+Variables (sf g : nat -> R).
+Hypothesis Hsplit : forall l, (l < k)%nat -> s l = sf l + g l.
+Hypothesis Hg : forall l, (l < k)%nat -> 0 <= g l <= t.
+Hypothesis Hcompl : forall l, (l < k)%nat -> sf l * g l = t * sf l.
+Hypothesis Hp : forall l, (l < k)%nat -> 0 <= sf l.
+Let M := compose k U s V.
+Let X := compose k U sf V.
+Let G := compose k U g V.
+
+(* sum a is the nuclear norm of U diag(a) V for a >= 0 *)
+Lemma nuc_compose a : (forall l, (l < k)%nat -> 0 <= a l) -> is_nuc m n (compose k U a V) (rsum k a).
+Proof.
+  intros Ha. split.
+  - intros W HW. rewrite frob_comm, frob_compose_l. apply rsum_le. intros l Hl.
+    pose proof (HW _ _ (ocols_unit m k U l HU Hl) (ocols_unit n k (fun j l => V l j) l HV Hl)) as B. pose proof (Ha l Hl). nra.
+  - exists (compose k U (fun _ => 1) V). split.
+    + intros u v Hu Hv. apply (bil_bound m n k U V HU HV (fun _ => 1) 1); auto; [lra | intros; lra].
+    + rewrite (frob_compose_compose m n k U V HU HV). apply rsum_ext; intros; ring.
+Qed.
+Lemma svt_output_nuc : is_nuc m n X (rsum k sf).
+Proof. apply nuc_compose, Hp. Qed.
+Lemma G_zero : t = 0 -> forall i j, G i j = 0.
+Proof.
+  intros E i j. unfold G, compose. apply rsum_zero. intros l Hl. destruct (Hg l Hl) as [Ga Gb].
+  assert (Gz : g l = 0) by lra. rewrite Gz. ring.
+Qed.
+(* against every matrix Z and every upper bound nu of its nuclear norm (in particular the nuclear norm itself) *)
+Theorem svt_optimal_dual (Z : nat -> nat -> R) (nu : R) : nuc_le m n Z nu ->
+  t * rsum k sf + frob m n (fun i j => X i j - M i j) (fun i j => X i j - M i j) / 2
+  <= t * nu + frob m n (fun i j => Z i j - M i j) (fun i j => Z i j - M i j) / 2.
+Proof.
+  intros HZ. pose proof (svt_XG m n k U V t HU HV sf g Hcompl) as H1. fold X G in H1.
+  assert (H2 : frob m n Z G <= t * nu).
+  { apply nuc_dual_bound; [exact Ht | exact HZ | | exact G_zero]. intros u v Hu Hv. apply (bil_bound m n k U V HU HV g t); assumption. }
+  assert (E : frob m n (fun i j => Z i j - M i j) (fun i j => Z i j - M i j)
+            = frob m n (fun i j => X i j - M i j) (fun i j => X i j - M i j)
+              + frob m n (fun i j => Z i j - X i j) (fun i j => Z i j - X i j) - 2 * frob m n Z G + 2 * frob m n X G).
+  { unfold frob. rewrite <- !rsum_scale, <- rsum_add, <- rsum_sub, <- rsum_add. apply rsum_ext; intros i _.
+    rewrite <- !rsum_scale, <- rsum_add, <- rsum_sub, <- rsum_add. apply rsum_ext; intros j _.
+    pose proof (svt_residual k U s V sf g Hsplit i j) as R1. fold M X G in R1. rewrite <- R1. ring. }
+  assert (P : 0 <= frob m n (fun i j => Z i j - X i j) (fun i j => Z i j - X i j)).
+  { unfold frob. apply rsum_nonneg; intros; apply rsum_nonneg; intros; cbv beta; apply Rle_0_sqr. }
+  rewrite E. lra.
+Qed.
+End SvtDual.
